@@ -182,6 +182,47 @@ func cmdAckqLin(a Args) {
 		}
 		res.Evaluations++
 	}
+	// one big trial: more requests in flight than any smaller power of two holds (identifiers run up to 65535)
+	if big := a.num("big", 0); big > 0 {
+		q := newAckqueue()
+		for i := 1; i <= big; i++ {
+			q.Wait(aqRequest("pub1", i, "x"), marker("pub1", i, "x"))
+		}
+		lg := &aqlLog{}
+		lg.add(map[string]interface{}{"ev": "bigsetup", "n": big})
+		bad := aqlDo(q, lg, 1, aqlCall{"acked", 0, ""})
+		for p := 1; p <= big; p++ {
+			q.Ack(aqAck("PUBACK", p, "x"))
+		}
+		lg.add(map[string]interface{}{"ev": "ackall"})
+		if b := aqlDo(q, lg, 2, aqlCall{"acked", 0, ""}); b != "" {
+			bad = b
+		}
+		if bad != "" {
+			res.mismatch(Mismatch{What: fmt.Sprintf("%d requests in flight: %s", big, bad), Tag: "C13"})
+		}
+		lg.add(map[string]interface{}{"ev": "reset"})
+		sort.Slice(lg.evs, func(i, j int) bool { return lg.evs[i].seq < lg.evs[j].seq })
+		for _, e := range lg.evs {
+			for _, k := range []string{"id", "op", "pid", "ty", "n", "rel", "more"} {
+				if _, ok := e.m[k]; !ok {
+					if k == "op" || k == "ty" {
+						e.m[k] = ""
+					} else {
+						e.m[k] = 0
+					}
+				}
+			}
+			if _, ok := e.m["out"]; !ok {
+				e.m["out"] = []int{}
+			}
+			b, _ := json.Marshal(e.m)
+			w.Write(b)
+			w.WriteByte('\n')
+			res.Steps++
+		}
+		res.Evaluations++
+	}
 	res.emit()
 }
 
